@@ -1,6 +1,7 @@
 package main
 
 import (
+	"encoding/json"
 	"flag"
 	"math/rand"
 	"net/http"
@@ -319,4 +320,112 @@ func cfgJSON(c *cors.Config) any {
 		"DangerouslyTolerateInsecureOrigins":            c.DangerouslyTolerateInsecureOrigins,
 		"DangerouslyTolerateSubdomainsOfPublicSuffixes": c.DangerouslyTolerateSubdomainsOfPublicSuffixes,
 	}
+}
+
+// ---------------------------------------------------------------- binding G for C02: replay of CorsMC's semantic configurations
+
+// cmdC02Gen reads the semantic configurations enumerated by TLC (CorsMC.tla: every combination of credentials, PNA mode,
+// allow-all / discrete origins, methods, request headers incl. * with or without Authorization, max-age, exposed headers,
+// status) and runs, for each, the WHOLE abstract intent universe of CorsMC (2 origins x 6 methods x 8 header subsets x
+// credentials mode x PNA) x 5 tolerated perturbations x debug on/off against a real middleware configured accordingly.
+func cmdC02Gen(args []string) {
+	fs := flag.NewFlagSet("c02gen", flag.ExitOnError)
+	cases := fs.String("cases", "", "semantic configurations written by TLC (CorsMC.tla)")
+	trace := fs.String("trace", "", "NDJSON trace to write")
+	stride := fs.Int("stride", 1, "use every stride-th configuration")
+	shard := fs.Int("shard", 0, "this shard")
+	nshards := fs.Int("nshards", 1, "number of shards")
+	out := fs.String("out", "", "summary JSON")
+	fs.Parse(args)
+	rng := newRand()
+	t := newTracer(*trace)
+	defer t.close()
+	type jsem struct {
+		Any    bool     `json:"any"`
+		Cred   bool     `json:"cred"`
+		MAny   bool     `json:"mAny"`
+		Meths  []string `json:"meths"`
+		HStar  bool     `json:"hStar"`
+		HAuth  bool     `json:"hAuth"`
+		HNames []string `json:"hNames"`
+		MaxAge int      `json:"maxAge"`
+		Expose string   `json:"expose"`
+		Status int      `json:"status"`
+		Pna    string   `json:"pna"`
+	}
+	oA := cOrigin{Scheme: "https", Host: "a.example"}
+	oB := cOrigin{Scheme: "https", Host: "b.example"}
+	methods := []string{"GET", "PUT", "PATCH", "patch", "OPTIONS", "DELETE"}
+	hdrSubsets := [][]string{{}, {"authorization"}, {"x-a"}, {"x-b"}, {"authorization", "x-a"}, {"authorization", "x-b"}, {"x-a", "x-b"}, {"authorization", "x-a", "x-b"}}
+	idx, used, cells, rejected := 0, 0, 0, 0
+	off := int(seedFromEnv()) % *stride
+	seen := map[string]bool{}
+	readCases(*cases, func(line []byte) {
+		if seen[string(line)] {
+			return
+		}
+		seen[string(line)] = true
+		idx++
+		if (idx+off)%*stride != 0 || (idx / *stride)%*nshards != *shard {
+			return
+		}
+		var j jsem
+		if err := json.Unmarshal(line, &j); err != nil {
+			fatal("bad sem: %v", err)
+		}
+		s := Sem{Any: j.Any, Cred: j.Cred, MAny: j.MAny, Meths: j.Meths, HStar: j.HStar, HAuth: j.HAuth, HNames: j.HNames,
+			MaxAge: j.MaxAge, Status: j.Status, Pna: j.Pna}
+		sort.Strings(s.Meths)
+		sort.Strings(s.HNames)
+		if j.Expose != "" {
+			s.Expose = []string{j.Expose}
+		}
+		if !s.Any || rng.Intn(2) == 0 {
+			s.Pats = []cPattern{{Scheme: "https", Host: "a.example"}}
+		}
+		cfg := s.spell(rng)
+		m, err := cors.NewMiddleware(*cfg)
+		if err != nil {
+			rejected++
+			t.emit(map[string]any{"ev": "Rejected", "cfg": cfgJSON(cfg), "err": err.Error()})
+			return
+		}
+		used++
+		// the abstract token oA is allowed (member) iff the configuration is discrete; under allow-all both are allowed
+		t.emit(map[string]any{"ev": "Config", "sem": s.toJSON(), "cfg": cfgJSON(cfg)})
+		for _, o := range []cOrigin{oA, oB} {
+			for _, method := range methods {
+				for _, hs := range hdrSubsets {
+					for _, include := range []bool{false, true} {
+						for _, pna := range []bool{false, true} {
+							for _, pert := range perts {
+								for _, dbg := range []bool{false, true} {
+									m.SetDebug(dbg)
+									ostr := o.String()
+									ph := http.Header{"Origin": {ostr}, "Access-Control-Request-Method": {method}}
+									if len(hs) > 0 {
+										ph["Access-Control-Request-Headers"] = acrhLines(rng, hs, pert)
+									}
+									if pna {
+										ph["Access-Control-Request-Private-Network"] = []string{"true"}
+									}
+									pre := serve(m, newReq("OPTIONS", ph), nil)
+									act := serve(m, newReq(method, http.Header{"Origin": {ostr}}), nil)
+									t.emit(map[string]any{
+										"ev": "Fetch", "dbg": dbg, "pert": pert,
+										"origin": map[string]any{"scheme": o.Scheme, "host": codes(o.Host), "port": o.Port, "txt": ostr},
+										"method": method, "hdrs": nzs(hs), "include": include, "pna": pna,
+										"acrh": nzs(ph["Access-Control-Request-Headers"]),
+										"pre":  absResp(pre.w), "act": absResp(act.w),
+									})
+									cells++
+								}
+							}
+						}
+					}
+				}
+			}
+		}
+	})
+	writeJSON(*out, map[string]any{"cells": cells, "configs": used, "rejected": rejected, "nontrivial": cells / 2, "events": t.n, "samples": []any{}})
 }
